@@ -15,7 +15,8 @@ from mc import core, sched
 
 ID = "C19"
 LEVEL = "model_checking"
-RULE = ("harnesses: H1 two populators || one loader on an empty cache; H2 one populator crashed at every point, then loader, "
+RULE = ("harnesses: H0 every leftover cache directory (installed files x stale temp copy x lock file x time stamp) then a "
+        "load of each version; H1 two populators || one loader on an empty cache; H2 one populator crashed at every point, then loader, "
         "populator, loader; H3 populator || populator; H4 two CacheLock holders (time-out allowed to fire); H5 refresh interval "
         "x clock answers x torn time-stamp files; H6 network refresh (fake server) crashed at every point || loader.  Every "
         "execution with <= B deviations (preemption of a runnable process, lock time-out, crash) is run on the real functions; "
@@ -538,6 +539,52 @@ def h4(rec, world, shard, nshards, bound):
     return sched.explore(mk, bound, chk, shard_filter(shard, nshards))
 
 
+def h0(rec, world, versions):
+    """Every leftover cache directory an earlier process can leave behind, followed by one load of each installed version
+    (sequential): each installed file {absent, complete}, a stale temporary copy {absent, half}, lock file {absent, present},
+    time stamp {absent, old, recent, unreadable}."""
+    import itertools
+    from hed.schema.hed_cache_lock import TIMESTAMP_FILENAME
+    names = sorted(world.bytes)
+    now = 1.9e9
+    for present in itertools.product((False, True), repeat=len(names)):
+        for tmp_left in (False, True):
+            for lock_file in (False, True):
+                for stamp in ("absent", "old", "recent", "unreadable"):
+                    initial = {}
+                    for n, p in zip(names, present):
+                        if p:
+                            initial[n] = world.bytes[n]
+                    if tmp_left:
+                        initial[names[0] + ".1000.tmp"] = world.bytes[names[0]][:1000]
+                    if lock_file:
+                        initial["cache_lock.lock"] = b""
+                    if stamp == "old":
+                        initial[TIMESTAMP_FILENAME] = str(now - 1e6).encode()
+                    elif stamp == "recent":
+                        initial[TIMESTAMP_FILENAME] = str(now - 5).encode()
+                    elif stamp == "unreadable":
+                        initial[TIMESTAMP_FILENAME] = b"17e"
+                    for version in versions:
+                        world.reset(initial)
+                        world.clock["default"] = now
+                        rec.n("evaluations")
+                        rec.n("transitions")
+                        r = make_loader(version)()
+                        rec.state(("H0", present, tmp_left, lock_file, stamp))
+                        rec.outcome("H0:" + r[2])
+                        where = {"harness": "H0", "installed_files_present": dict(zip(names, present)),
+                                 "stale_tmp": tmp_left, "lock_file": lock_file, "time_stamp": stamp, "load": version}
+                        if r[2] != "ok":
+                            rec.violation(f"C19:H0:load-failed:{r[2]}:time-stamp-{stamp}", detail=r[3], **where)
+                        for name, h in world.reads:
+                            if h != "missing" and name in world.bytes and h != sha(world.bytes[name]):
+                                rec.violation("C19:H0:loader-read-torn-file", file=name, **where)
+                        bad = torn_files(world.cache_listing(), world)
+                        if bad:
+                            rec.violation("C19:H0:torn-file-kept-under-final-name", files=bad, **where)
+
+
 def h5(rec, world):
     """Refresh interval and unreadable time-stamp files (sequential)."""
     from hed.schema.hed_cache_lock import CacheLock, CacheException, CACHE_TIME_THRESHOLD, TIMESTAMP_FILENAME
@@ -674,6 +721,8 @@ def worker(rec, shard, nshards, scratch, files, bounds, thorough, seed):
         rec.n("executions_" + name, st["executions"])
     if shard == 0:
         h5(rec, WORLD)
+    if shard == 1 % nshards:
+        h0(rec, WORLD, versions)
     shutil.rmtree(WORLD.root, ignore_errors=True)
 
 
